@@ -171,6 +171,80 @@ def runRt : P String := do
         | _ => "VIOLATION Ok(bytes) but the bytes do not decode under the specification"
       pure s!"ok {bytesToHex bs} | {fmtDe dres} # {verdict}"
 
+def poolToString (p : Pool) : String :=
+  let bs := p.buffers.reverse.map fun b => toString b.data.length
+  let ss := p.superBuffers.reverse.map fun b => toString b.slots.length
+  s!"pool {",".intercalate bs} {",".intercalate ss}"
+
+/-- `reuse <allowSlow> <schema> <n> (<budget|-> <sv>)* [ext]`: a history on one configuration.
+    Oracle (C14): every result equals the result on a fresh configuration; the pool stays clean;
+    no panic. -/
+def runReuse : P String := do
+  let allowSlow := (← pNat) ≠ 0
+  let sm ← pSchemaMut
+  let ops ← pList (do let b ← pOptNat; let v ← pSV; pure (b, v))
+  let ext ← pExtEntries {}
+  let S := freezeNodes sm
+  match S[0]? with
+  | none => pure "noroot"
+  | some root =>
+    let fmt := fun (r : Except SerErr Unit) (out : Bytes) => match r with
+      | .ok _ => s!"ok {bytesToHex out}"
+      | .error .panic => "panic"
+      | .error _ => "err"
+    let step := fun (acc : Pool × List String × List String × Bool) (op : Option Nat × SV) =>
+      let (pool, outs, problems, dead) := acc
+      if dead then acc else
+      let (r, st) := ser ext.toExt allowSlow S root op.2 { budget := op.1, pool := pool }
+      let (r0, st0) := ser ext.toExt allowSlow S root op.2 { budget := op.1 }
+      let o := fmt r st.out
+      let o0 := fmt r0 st0.out
+      let clean := st.pool.buffers.all (·.data.isEmpty) && st.pool.superBuffers.all (·.slots.isEmpty)
+      let problems := problems
+        ++ (if o ≠ o0 then ["a reused configuration gave a different result than a fresh one"] else [])
+        ++ (if !clean then ["a buffer was returned to the pool without being cleared"] else [])
+        ++ (if o = "panic" then ["panic on an internal consistency assertion"] else [])
+      if o = "panic" then (st.pool, outs ++ ["panic"], problems, true)
+      else (st.pool, outs ++ [s!"{o} {poolToString st.pool}"], problems, false)
+    let (_, outs, problems, _) := ops.foldl step ({}, [], [], false)
+    let verdict := match problems with | [] => "ok" | p :: _ => s!"VIOLATION {p}"
+    pure (" ; ".intercalate outs ++ " # " ++ verdict)
+
+/-- `perm <allowSlow> <schema> <k> sv* <j> sv* [ext]`: the first group are presentations of one
+    record in different orders/shapes (omitting null nullable fields): all must give the bytes of
+    the first; the second group are injections (unknown / duplicated / missing field) that must be
+    rejected. -/
+def runPerm : P String := do
+  let allowSlow := (← pNat) ≠ 0
+  let sm ← pSchemaMut
+  let same ← pList pSV
+  let bad ← pList pSV
+  let ext ← pExtEntries {}
+  let S := freezeNodes sm
+  match S[0]? with
+  | none => pure "noroot"
+  | some root =>
+    let one := fun (pool : Pool) (sv : SV) =>
+      let (r, st) := ser ext.toExt allowSlow S root sv { pool := pool }
+      (match r with
+        | .ok _ => s!"ok {bytesToHex st.out}"
+        | .error .panic => "panic"
+        | .error _ => "err", st.pool)
+    let run := fun (svs : List SV) (pool : Pool) =>
+      svs.foldl (fun (acc : List String × Pool) sv => let (o, p) := one acc.2 sv; (acc.1 ++ [o], p)) ([], pool)
+    let (a, pool) := run same {}
+    let (b, _) := run bad pool
+    let verdict :=
+      if (a ++ b).contains "panic" then "VIOLATION panic"
+      else match a with
+        | [] => "ok"
+        | first :: rest =>
+          if !first.startsWith "ok" then "n/a the in-order presentation is rejected"
+          else if !rest.all (· == first) then "VIOLATION record bytes depend on the order / shape in which fields are presented"
+          else if !b.all (· == "err") then "VIOLATION an unknown, duplicated or missing field was accepted"
+          else "ok"
+    pure (" ; ".intercalate a ++ " | " ++ " ; ".intercalate b ++ " # " ++ verdict)
+
 /-! ### Container writer histories -/
 
 open Avro.Impl.Ocf in
@@ -441,6 +515,8 @@ def dispatch (line : String) : String :=
       | "de" => some runDe
       | "c11" => some runC11
       | "rt" => some runRt
+      | "reuse" => some runReuse
+      | "perm" => some runPerm
       | "ocfw" => some runOcfw
       | "ocfr" => some runOcfr
       | "ocfd" => some (pure "rust-judged")
